@@ -282,7 +282,7 @@ def strategy(fam):
             g = groups[draw(st.integers(0, ngroups - 1))]
             k = draw(st.integers(2, len(g['pool'])))
             ins = draw(st.permutations(g['pool']))[:k]
-            if draw(st.integers(0, 19)) == 0:
+            if draw(st.integers(0, 29)) == 0:
                 ins = ins + [ins[0]]                       # the same input twice (accepted with a warning)
             sf = None
             if draw(st.integers(0, 3)) > 0:
@@ -294,7 +294,7 @@ def strategy(fam):
             if draw(st.integers(0, 4)) == 0:
                 e['ref'] = draw(st.sampled_from([8, 40, 2, -4]))
             if draw(st.integers(0, 4)) == 0:
-                e['ref0'] = draw(st.sampled_from([1, 4, -2]))
+                e['ref0'] = draw(st.sampled_from([1, 6, -2]))        # never equal to ref
             eqs.append(e)
             for n in ins:
                 used[n] = g
